@@ -322,6 +322,12 @@ class Padding(WidgetDecoration[WrappedWidget], typing.Generic[WrappedWidget]):
 
         return canv
 
+    def _fixed_child_size(self) -> tuple[()] | tuple[int]:
+        """Size handed to the original widget when this widget is rendered as a fixed widget (see render)."""
+        if self._width_type == WHSettings.GIVEN:
+            return (self._width_amount,)
+        return ()
+
     def padding_values(
         self,
         size: tuple[()] | tuple[int] | tuple[int, int],
@@ -405,7 +411,7 @@ class Padding(WidgetDecoration[WrappedWidget], typing.Generic[WrappedWidget]):
         if size:
             maxvals = (size[0] - left - right,) + size[1:]
             return self._original_widget.keypress(maxvals, key)
-        return self._original_widget.keypress((), key)
+        return self._original_widget.keypress(self._fixed_child_size(), key)
 
     def get_cursor_coords(self, size: tuple[()] | tuple[int] | tuple[int, int]) -> tuple[int, int] | None:
         """Return the (x,y) coordinates of cursor within self._original_widget."""
@@ -418,7 +424,7 @@ class Padding(WidgetDecoration[WrappedWidget], typing.Generic[WrappedWidget]):
             if maxvals[0] == 0:
                 return None
         else:
-            maxvals = ()
+            maxvals = self._fixed_child_size()
 
         if (coords := self._original_widget.get_cursor_coords(maxvals)) is not None:
             x, y = coords
@@ -445,7 +451,7 @@ class Padding(WidgetDecoration[WrappedWidget], typing.Generic[WrappedWidget]):
             maxvals = (maxcol - left - right,) + size[1:]
         else:
             maxcol = self.pack((), True)[0]
-            maxvals = ()
+            maxvals = self._fixed_child_size()
 
         if isinstance(x, int):
             if x < left:
@@ -476,7 +482,7 @@ class Padding(WidgetDecoration[WrappedWidget], typing.Generic[WrappedWidget]):
                 return False
             maxvals = (maxcol - left - right,) + size[1:]
         else:
-            maxvals = ()
+            maxvals = self._fixed_child_size()
 
         return self._original_widget.mouse_event(maxvals, event, button, col - left, row, focus)
 
@@ -489,7 +495,7 @@ class Padding(WidgetDecoration[WrappedWidget], typing.Generic[WrappedWidget]):
         if size:
             maxvals = (size[0] - left - right,) + size[1:]
         else:
-            maxvals = ()
+            maxvals = self._fixed_child_size()
 
         x = self._original_widget.get_pref_col(maxvals)
         if isinstance(x, int):
